@@ -186,15 +186,30 @@ Proof.
     destruct (IH ND' Hin) as [r Hr]. rewrite Hr. eexists. reflexivity.
 Qed.
 
-(* who received an outcome (reply, failure or refusal) *)
+(* who received an outcome (reply, failure, refusal or cancellation) *)
 Definition out_waiter (o : cout) : list Z :=
   match o with
   | OSent _ _ => []
   | ORefused w => [w]
   | ODeliver w _ _ _ => [w]
   | OFail w _ => [w]
+  | OCancelled w => [w]
   end.
 Definition outcome_waiters (outs : list cout) : list Z := flat_map out_waiter outs.
+
+Lemma memz_in x l : memz x l = true <-> In x l.
+Proof.
+  unfold memz. rewrite existsb_exists. split.
+  - intros [y [H1 H2]]. apply Z.eqb_eq in H2. subst. exact H1.
+  - intros H. exists x. split; [exact H|apply Z.eqb_refl].
+Qed.
+
+Lemma memz_removez x y l : x <> y -> memz x (removez y l) = memz x l.
+Proof.
+  intros Hne. induction l as [|z l IH]; [reflexivity|]. cbn [removez]. destruct (y =? z) eqn:E.
+  - apply Z.eqb_eq in E. subst z. cbn [memz existsb]. fold (memz x l). replace (x =? y) with false by lia. exact IH.
+  - cbn [memz existsb]. fold (memz x l) (memz x (removez y l)). rewrite IH. reflexivity.
+Qed.
 
 (* invariant of every reachable client state together with everything output so far *)
 Record cinv (start : Z) (s : cstate) (outs : list cout) : Prop := {
@@ -204,7 +219,8 @@ Record cinv (start : Z) (s : cstate) (outs : list cout) : Prop := {
   ci_keys : NoDup (map fst (c_reqs s));
   ci_vals : NoDup (map snd (c_reqs s));
   ci_sent : c_open s = true -> forall id w, In (id, w) (c_reqs s) -> In (OSent w id) outs;
-  ci_fresh : c_open s = true -> forall id w, In (id, w) (c_reqs s) -> ~ In w (outcome_waiters outs);
+  ci_fresh : c_open s = true -> forall id w, In (id, w) (c_reqs s) -> memz w (c_cancelled s) = false ->
+             ~ In w (outcome_waiters outs);
   ci_bound : forall w, In w (outcome_waiters outs) -> 0 <= w < c_count s;
   ci_once : NoDup (outcome_waiters outs);
   ci_deliv : forall w ty id p, In (ODeliver w ty id p) outs -> In (OSent w id) outs;
@@ -217,7 +233,15 @@ Proof. unfold outcome_waiters. apply flat_map_app. Qed.
 Lemma outcome_waiters_fail l e : outcome_waiters (map (fun kw : Z * Z => OFail (snd kw) e) l) = map snd l.
 Proof. induction l as [|x l IH]; cbn; [reflexivity|]. f_equal. exact IH. Qed.
 
-Lemma cinv_init start : cinv start (mkc (start mod TWO32) 0 [] true) [].
+Lemma nodup_map_filter {A B} (f : A -> B) (p : A -> bool) l : NoDup (map f l) -> NoDup (map f (filter p l)).
+Proof.
+  induction l as [|x l IH]; cbn; intros H; [constructor|]. inversion H; subst.
+  destruct (p x); cbn; [|apply IH; assumption]. constructor; [|apply IH; assumption].
+  intros Hin. apply H2. apply in_map_iff in Hin. destruct Hin as [y [Hy1 Hy2]]. apply filter_In in Hy2.
+  apply in_map_iff. exists y. tauto.
+Qed.
+
+Lemma cinv_init start : cinv start (mkc (start mod TWO32) 0 [] true []) [].
 Proof.
   constructor; cbn; try (intros; contradiction); try lia; try constructor.
   - rewrite Z.add_0_r. reflexivity.
@@ -227,18 +251,21 @@ Lemma cinv_cleanup start s outs e :
   cinv start s outs -> c_open s = true ->
   cinv start (fst (c_cleanup s e)) (outs ++ snd (c_cleanup s e)).
 Proof.
-  intros I Ho. unfold c_cleanup. cbn [fst snd]. destruct I. constructor; cbn [c_next c_count c_reqs c_open]; try assumption.
+  intros I Ho. unfold c_cleanup. cbn [fst snd]. destruct I.
+  constructor; cbn [c_next c_count c_reqs c_open c_cancelled]; try assumption.
   - intros ? ? [].
   - constructor.
   - constructor.
   - discriminate.
   - discriminate.
   - intros w. rewrite outcome_waiters_app, in_app_iff, outcome_waiters_fail. intros [H|H]; [apply ci_bound0; exact H|].
-    apply in_map_iff in H. destruct H as [[id w'] [H1 H2]]. cbn in H1. subst. apply (ci_ids0 _ _ H2).
+    apply in_map_iff in H. destruct H as [[id w'] [H1 H2]]. cbn in H1. subst. apply filter_In in H2.
+    apply (ci_ids0 _ _ (proj1 H2)).
   - rewrite outcome_waiters_app, outcome_waiters_fail.
-    apply nodup_app; [assumption|assumption|].
+    apply nodup_app; [assumption|apply nodup_map_filter; assumption|].
     intros w H1 H2. apply in_map_iff in H2. destruct H2 as [[id w'] [H2 H3]]. cbn in H2. subst.
-    exact (ci_fresh0 Ho _ _ H3 H1).
+    apply filter_In in H3. destruct H3 as [H3 H4]. cbn [snd] in H4. apply negb_true_iff in H4.
+    exact (ci_fresh0 Ho _ _ H3 H4 H1).
   - intros w ty id p. rewrite !in_app_iff. intros [H|H]; [left; eapply ci_deliv0; exact H|].
     apply in_map_iff in H. destruct H as [? [H _]]. discriminate.
   - intros w id. rewrite in_app_iff. intros [H|H]; [apply ci_sentid0; exact H|].
@@ -256,15 +283,15 @@ Qed.
 Lemma cinv_step start s outs e :
   cinv start s outs -> cinv start (fst (c_step s e)) (outs ++ snd (c_step s e)).
 Proof.
-  intros I. destruct e as [|ty id p| |].
+  intros I. destruct e as [|ty id p| | |cw].
   - (* CSend *)
-    cbn [c_step fst snd]. destruct I. 
+    cbn [c_step fst snd]. destruct I.
     pose proof (dict_set_keys (c_reqs s) (c_next s) (c_count s) ci_keys0) as [K1 K2].
     assert (Hnw : ~ In (c_count s) (map snd (c_reqs s))).
     { intros H. apply in_map_iff in H. destruct H as [[id w] [H1 H2]]. cbn in H1. subst.
       apply ci_ids0 in H2. lia. }
     pose proof (dict_set_vals (c_reqs s) (c_next s) (c_count s) ci_vals0 Hnw) as [V1 V2].
-    constructor; cbn [c_next c_count c_reqs c_open].
+    constructor; cbn [c_next c_count c_reqs c_open c_cancelled].
     + lia.
     + rewrite ci_next0. rewrite Zplus_mod_idemp_l. f_equal. lia.
     + intros id w H. apply dict_set_in in H. destruct H as [[-> ->]|H].
@@ -275,10 +302,10 @@ Proof.
     + intros Ho id w H. rewrite Ho. apply in_app_iff. apply dict_set_in in H. destruct H as [[-> ->]|H].
       * right. left. reflexivity.
       * left. exact (ci_sent0 Ho _ _ H).
-    + intros Ho id w H. rewrite Ho. rewrite outcome_waiters_app. cbn. rewrite app_nil_r.
+    + intros Ho id w H Hc. rewrite Ho. rewrite outcome_waiters_app. cbn. rewrite app_nil_r.
       apply dict_set_in in H. destruct H as [[-> ->]|H].
       * intros Hin. apply ci_bound0 in Hin. lia.
-      * exact (ci_fresh0 Ho _ _ H).
+      * exact (ci_fresh0 Ho _ _ H Hc).
     + intros w. rewrite outcome_waiters_app, in_app_iff. intros [H|H]; [apply ci_bound0 in H; lia|].
       destruct (c_open s); cbn in H; [contradiction|]. destruct H as [<-|[]]. lia.
     + rewrite outcome_waiters_app. destruct (c_open s); cbn; [rewrite app_nil_r; assumption|].
@@ -292,25 +319,55 @@ Proof.
   - (* CRecv *)
     cbn [c_step]. destruct (c_open s) eqn:Ho.
     + destruct (dict_pop (c_reqs s) id) as [[w rest]|] eqn:P.
-      * cbn [fst snd]. destruct I. destruct (dict_pop_some _ _ _ _ P) as (P1 & P2 & P3 & P4 & P5).
+      * destruct I. destruct (dict_pop_some _ _ _ _ P) as (P1 & P2 & P3 & P4 & P5).
         destruct (P4 ci_keys0) as [K1 K2]. destruct (P5 ci_vals0) as [V1 V2].
-        constructor; cbn [c_next c_count c_reqs c_open]; try assumption.
-        -- intros id' w' H. apply ci_ids0. apply P2. exact H.
-        -- intros _ id' w' H. apply in_app_iff. left. apply ci_sent0; [assumption|apply P2; exact H].
-        -- intros _ id' w' H. rewrite outcome_waiters_app, in_app_iff. cbn. intros [Hin|[<-|[]]].
-           ++ exact (ci_fresh0 Ho _ _ (P2 _ H) Hin).
-           ++ apply V2. apply in_map_iff. exists (id', w). split; [reflexivity|exact H].
-        -- intros w'. rewrite outcome_waiters_app, in_app_iff. cbn. intros [H|[<-|[]]]; [apply ci_bound0; exact H|].
-           apply (ci_ids0 _ _ P1).
-        -- rewrite outcome_waiters_app. cbn. apply nodup_app; [assumption|repeat constructor; intros []|].
-           intros a Ha [<-|[]]. exact (ci_fresh0 Ho _ _ P1 Ha).
-        -- intros w' ty' id' p'. rewrite !in_app_iff. intros [H|[H|[]]]; [left; eapply ci_deliv0; exact H|].
-           inversion H; subst. left. apply ci_sent0; assumption.
-        -- intros w' id'. rewrite in_app_iff. intros [H|[H|[]]]; [apply ci_sentid0; exact H|discriminate].
+        assert (Hother : forall id' w', In (id', w') rest -> w' <> w).
+        { intros id' w' H ->. apply V2. apply in_map_iff. exists (id', w). split; [reflexivity|exact H]. }
+        destruct (memz w (c_cancelled s)) eqn:Hc; cbn [fst snd].
+        -- (* late reply to a cancelled waiter: dropped *)
+           rewrite app_nil_r.
+           constructor; cbn [c_next c_count c_reqs c_open c_cancelled]; try assumption.
+           ++ intros id' w' H. apply ci_ids0. apply P2. exact H.
+           ++ intros _ id' w' H. apply ci_sent0; [assumption|apply P2; exact H].
+           ++ intros _ id' w' H Hc'. rewrite memz_removez in Hc' by (apply (Hother _ _ H)).
+              exact (ci_fresh0 Ho _ _ (P2 _ H) Hc').
+        -- constructor; cbn [c_next c_count c_reqs c_open c_cancelled]; try assumption.
+           ++ intros id' w' H. apply ci_ids0. apply P2. exact H.
+           ++ intros _ id' w' H. apply in_app_iff. left. apply ci_sent0; [assumption|apply P2; exact H].
+           ++ intros _ id' w' H Hc'. rewrite outcome_waiters_app, in_app_iff. cbn. intros [Hin|[<-|[]]].
+              ** exact (ci_fresh0 Ho _ _ (P2 _ H) Hc' Hin).
+              ** exact (Hother _ _ H eq_refl).
+           ++ intros w'. rewrite outcome_waiters_app, in_app_iff. cbn. intros [H|[<-|[]]]; [apply ci_bound0; exact H|].
+              apply (ci_ids0 _ _ P1).
+           ++ rewrite outcome_waiters_app. cbn. apply nodup_app; [assumption|repeat constructor; intros []|].
+              intros a Ha [<-|[]]. exact (ci_fresh0 Ho _ _ P1 Hc Ha).
+           ++ intros w' ty' id' p'. rewrite !in_app_iff. intros [H|[H|[]]]; [left; eapply ci_deliv0; exact H|].
+              inversion H; subst. left. apply ci_sent0; assumption.
+           ++ intros w' id'. rewrite in_app_iff. intros [H|[H|[]]]; [apply ci_sentid0; exact H|discriminate].
       * apply cinv_cleanup; assumption.
     + cbn [fst snd]. rewrite app_nil_r. exact I.
   - cbn [c_step]. destruct (c_open s) eqn:Ho; [apply cinv_cleanup; assumption|]. cbn [fst snd]. rewrite app_nil_r. exact I.
   - cbn [c_step]. destruct (c_open s) eqn:Ho; [apply cinv_cleanup; assumption|]. cbn [fst snd]. rewrite app_nil_r. exact I.
+  - (* CCancel *)
+    cbn [c_step].
+    destruct (c_open s && memz cw (map snd (c_reqs s)) && negb (memz cw (c_cancelled s))) eqn:C;
+      cbn [fst snd]; [|rewrite app_nil_r; exact I].
+    apply andb_true_iff in C. destruct C as [C C3]. apply andb_true_iff in C. destruct C as [Ho C2].
+    apply negb_true_iff in C3. apply memz_in in C2. apply in_map_iff in C2. destruct C2 as [[cid cw'] [C2 C4]].
+    cbn in C2. subst cw'. destruct I.
+    constructor; cbn [c_next c_count c_reqs c_open c_cancelled]; try assumption.
+    + intros _ id w H. apply in_app_iff. left. apply ci_sent0; assumption.
+    + intros _ id w H Hc. cbn [memz existsb] in Hc. fold (memz w (c_cancelled s)) in Hc.
+      apply orb_false_iff in Hc. destruct Hc as [Hc1 Hc2].
+      rewrite outcome_waiters_app, in_app_iff. cbn. intros [Hin|[<-|[]]].
+      * exact (ci_fresh0 Ho _ _ H Hc2 Hin).
+      * rewrite Z.eqb_refl in Hc1. discriminate.
+    + intros w. rewrite outcome_waiters_app, in_app_iff. cbn. intros [H|[<-|[]]]; [apply ci_bound0; exact H|].
+      apply (ci_ids0 _ _ C4).
+    + rewrite outcome_waiters_app. cbn. apply nodup_app; [assumption|repeat constructor; intros []|].
+      intros a Ha [<-|[]]. exact (ci_fresh0 Ho _ _ C4 C3 Ha).
+    + intros w ty id p. rewrite !in_app_iff. intros [H|[H|[]]]; [left; eapply ci_deliv0; exact H|discriminate].
+    + intros w id. rewrite in_app_iff. intros [H|[H|[]]]; [apply ci_sentid0; exact H|discriminate].
 Qed.
 
 Lemma c_run_app s evs : forall outs0 start,
@@ -370,23 +427,37 @@ Proof.
   intros w id H. apply ci_sentid0 in H. destruct H as [_ ->]. f_equal.
 Qed.
 
-(* one reply, any reachable state: delivered to the waiter registered under its id and to nobody else;
-   an id nobody waits for fails every waiter and ends the session *)
+(* one reply, any reachable state *)
 Lemma route_step evs ty id p :
   let s := fst (c_run c_init evs) in
   c_open s = true ->
   (forall w, In (id, w) (c_reqs s) ->
-     exists rest, c_step s (CRecv ty id p) = (mkc (c_next s) (c_count s) rest true, [ODeliver w ty id p]) /\
-                  (forall x, In x (c_reqs s) -> x = (id, w) \/ In x rest) /\ ~ In id (map fst rest)) /\
+     exists rest,
+       (forall x, In x (c_reqs s) -> x = (id, w) \/ In x rest) /\ ~ In id (map fst rest) /\
+       c_step s (CRecv ty id p) =
+         if memz w (c_cancelled s)
+         then (mkc (c_next s) (c_count s) rest true (removez w (c_cancelled s)), [])
+         else (mkc (c_next s) (c_count s) rest true (c_cancelled s), [ODeliver w ty id p])) /\
   ((forall w, ~ In (id, w) (c_reqs s)) ->
      c_step s (CRecv ty id p) =
-       (mkc (c_next s) (c_count s) [] false, map (fun kw => OFail (snd kw) (ESftp FX_BAD_MESSAGE)) (c_reqs s))).
+       (mkc (c_next s) (c_count s) [] false [],
+        map (fun kw => OFail (snd kw) (ESftp FX_BAD_MESSAGE))
+            (filter (fun kw => negb (memz (snd kw) (c_cancelled s))) (c_reqs s)))).
 Proof.
   intros s Ho. destruct (c_run_inv evs) as [? ? ? Hk ? ? ? ? ? ? ?]. fold s in Hk. split.
-  - intros w Hin. destruct (dict_pop_in _ _ _ Hk Hin) as [r Hr]. exists r. cbn [c_step]. rewrite Ho, Hr.
-    split; [reflexivity|]. destruct (dict_pop_some _ _ _ _ Hr) as (_ & _ & P3 & P4 & _). split; [exact P3|exact (proj2 (P4 Hk))].
+  - intros w Hin. destruct (dict_pop_in _ _ _ Hk Hin) as [r Hr]. exists r.
+    destruct (dict_pop_some _ _ _ _ Hr) as (_ & _ & P3 & P4 & _).
+    split; [exact P3|]. split; [exact (proj2 (P4 Hk))|].
+    cbn [c_step]. rewrite Ho, Hr. destruct (memz w (c_cancelled s)); reflexivity.
   - intros Hno. cbn [c_step]. rewrite Ho. destruct (dict_pop (c_reqs s) id) as [[w r]|] eqn:P; [|reflexivity].
     exfalso. apply (Hno w). exact (proj1 (dict_pop_some _ _ _ _ P)).
+Qed.
+
+(* cancelling a caller leaves its table entry in place: the ids of all other requests, and its own, stay known *)
+Lemma cancel_keeps_table s w : c_reqs (fst (c_step s (CCancel w))) = c_reqs s /\ c_open (fst (c_step s (CCancel w))) = c_open s.
+Proof.
+  cbn [c_step]. destruct (c_open s && memz w (map snd (c_reqs s)) && negb (memz w (c_cancelled s))) eqn:E; cbn [fst c_reqs c_open]; [|auto].
+  split; [reflexivity|]. apply andb_true_iff in E. destruct E as [E _]. apply andb_true_iff in E. destruct E as [E _]. symmetry. exact E.
 Qed.
 
 (* reply type check of _make_request *)
@@ -789,4 +860,681 @@ Lemma land_small m n : 0 <= m < 2 ^ n -> 0 <= n -> Z.land m (2 ^ n - 1) = m.
 Proof.
   intros Hm Hn. replace (2 ^ n - 1) with (Z.ones n) by (rewrite Z.ones_equiv; lia).
   rewrite Z.land_ones by exact Hn. apply Z.mod_small. exact Hm.
+Qed.
+
+(* ------------------------------------------------------------------------------------------ *)
+(* 3. attribute codec: round trip                                                               *)
+
+Lemma if_same {A} (c : bool) (x : A) : (if c then x else x) = x.
+Proof. destruct c; reflexivity. Qed.
+
+Lemma p_opt_rt_id {A} (g : bytes -> option (A * bytes)) (f : A -> bytes) (o : option A) r :
+  (forall x, o = Some x -> g (f x ++ r) = Some (x, r)) ->
+  p_opt (is_some o) g (enc_opt f o ++ r) = Ok (o, r).
+Proof.
+  intros H. rewrite (p_opt_rt g f (fun x => x) o r H). destruct o; reflexivity.
+Qed.
+
+Lemma opt_pair_fst {A B} (x : option A) (y : option B) : both_or_none x y = true -> option_map fst (opt_pair x y) = x.
+Proof. destruct x, y; cbn; intros; try reflexivity; discriminate. Qed.
+Lemma opt_pair_snd {A B} (x : option A) (y : option B) : both_or_none x y = true -> option_map snd (opt_pair x y) = y.
+Proof. destruct x, y; cbn; intros; try reflexivity; discriminate. Qed.
+
+Lemma pair32_rt (x y : option Z) r :
+  opt_all in_u32 x = true -> opt_all in_u32 y = true ->
+  p_opt (is_some (opt_pair x y)) (get_pair get_u32 get_u32) (enc_opt put_pair32 (opt_pair x y) ++ r) = Ok (opt_pair x y, r).
+Proof.
+  intros Hx Hy. apply p_opt_rt_id. intros [u g] E. destruct x, y; try discriminate E. inversion E; subst.
+  apply get_put_pair32; assumption.
+Qed.
+
+Lemma ext_rt ext rest : ext_ok ext = true ->
+  (if negb match ext with [] => true | _ => false end then
+     let* (count, b1) := lift (get_u32 (put_ext ext ++ rest)) in lift (get_ext (S (length b1)) count b1)
+   else Ok ([], put_ext ext ++ rest)) = Ok (ext, rest).
+Proof.
+  intros H. unfold ext_ok in H. apply andb_true_iff in H. destruct H as [H1 H2].
+  destruct ext as [|p l]; [reflexivity|]. cbn [negb]. unfold put_ext. rewrite <- app_assoc.
+  rewrite get_put_u32 by lia. cbn [lift].
+  rewrite get_put_ext; [reflexivity| |exact H2].
+  pose proof (ext_length_le (p :: l) rest). lia.
+Qed.
+
+Lemma perm_mask_rt (n : Z) (perm : option Z) :
+  0 <= n -> opt_all (fun m => (0 <=? m) && (m <? 2 ^ n)) perm = true ->
+  option_map (fun m => Z.land m (2 ^ n - 1)) perm = perm.
+Proof.
+  intros Hn H. destruct perm as [m|]; [|reflexivity]. cbn in *. f_equal. apply land_small; lia.
+Qed.
+
+Lemma time_rt sub ns t r :
+  time_carriable sub t ns = true -> (is_some ns = true -> sub = true) ->
+  p_opt (is_some t) (get_time sub) (enc_opt (put_time sub ns) t ++ r) = Ok (option_map (fun x => (x, ns)) t, r).
+Proof.
+  intros H Hs. apply p_opt_rt. intros x ->. apply get_put_time.
+  - destruct ns; cbn in H; apply andb_true_iff in H; tauto.
+  - intros ->. destruct ns as [n|]; cbn in H; apply andb_true_iff in H; destruct H as [_ H]; [eauto|discriminate].
+  - intros ->. destruct ns as [n|]; [|reflexivity]. discriminate (Hs eq_refl).
+Qed.
+
+Lemma tsec_map (t : option Z) ns : tsec (option_map (fun x => (x, ns)) t) = t.
+Proof. destruct t; reflexivity. Qed.
+Lemma tns_map sub (t : option Z) ns : time_carriable sub t ns = true -> tns (option_map (fun x => (x, ns)) t) = ns.
+Proof. destruct t, ns; cbn; intros; try reflexivity; discriminate. Qed.
+
+Lemma opt_all_and {A} (p q : A -> bool) (o : option A) :
+  opt_all (fun x => p x && q x) o = true -> opt_all p o = true /\ opt_all q o = true.
+Proof. destruct o; cbn; [apply andb_true_iff|auto]. Qed.
+
+Lemma enc_filetype_id v a :
+  ((5 <=? v) || (a_type a <? FT_SOCKET)) = true -> enc_filetype v a = a_type a.
+Proof.
+  unfold enc_filetype, FT_SOCKET. intros H. destruct ((v <? 5) && (6 <=? a_type a)) eqn:E; [lia|reflexivity].
+Qed.
+
+Ltac zconst x := match x with Z0 => idtac | Zpos _ => idtac | Zneg _ => idtac end.
+Ltac simp_cmp := repeat match goal with
+  | |- context [Z.eqb ?a ?b] => zconst a; zconst b; let r := eval vm_compute in (Z.eqb a b) in change (Z.eqb a b) with r
+  | |- context [Z.leb ?a ?b] => zconst a; zconst b; let r := eval vm_compute in (Z.leb a b) in change (Z.leb a b) with r
+  | |- context [Z.ltb ?a ?b] => zconst a; zconst b; let r := eval vm_compute in (Z.ltb a b) in change (Z.ltb a b) with r
+  end.
+Ltac simp_has := repeat match goal with
+  | |- context [has ?a ?b] => is_const a; is_const b; let r := eval vm_compute in (has a b) in change (has a b) with r
+  end.
+Ltac simp_bools := rewrite ?andb_true_r, ?andb_false_r, ?orb_false_r; cbn [orb andb negb].
+Ltac and_hyps :=
+  repeat match goal with
+         | H : _ && _ = true |- _ => apply andb_true_iff in H; destruct H
+         end.
+Ltac none_fields :=
+  repeat match goal with
+         | H : is_none ?o = true |- _ => destruct o; [discriminate H|clear H]
+         end.
+Ltac projs := cbn [a_type a_size a_alloc a_uid a_gid a_owner a_group a_perm a_atime a_atime_ns a_crtime a_crtime_ns
+                   a_mtime a_mtime_ns a_ctime a_ctime_ns a_acl a_bits a_valid a_hint a_mime a_nlink a_untrans a_ext].
+
+Lemma attrs_rt3 a rest : attrs_carriable 3 a = true -> attrs_decode 3 (attrs_encode 3 a ++ rest) = Ok (a, rest).
+Proof.
+  intros C. destruct a as [ty size alloc uid gid owner group perm atime atime_ns crtime crtime_ns mtime mtime_ns
+                           ctime ctime_ns acl bits valid hint mime nlink untrans ext].
+  unfold attrs_carriable in C. revert C. projs. simp_cmp. cbv iota. intros C. and_hyps. none_fields.
+  unfold attrs_decode, attrs_encode. rewrite <- app_assoc.
+  rewrite get_put_u32 by apply attr_flags_range. cbn [lift].
+  unfold attr_flags. projs. cbn [subsecond]. projs. simp_cmp. cbn [is_some opt_pair negb andb orb].
+  match goal with |- context [flagsum ?l] => set (F := flagsum l) end.
+  assert (HS : forall m, has F m = existsb (fun pm => fst pm && has (snd pm) m) _) by (intros m; apply has_flagsum).
+  cbn [existsb fst snd andb orb] in HS.
+  assert (HM : has F F_MTIME = false) by (rewrite HS; simp_has; simp_bools; reflexivity).
+  assert (HU : Z.land F (Z.lnot (valid_flags 3)) = 0).
+  { subst F. apply flagsum_within. repeat (constructor; [cbn [fst snd]; first [discriminate | intros _; reflexivity]|]). constructor. }
+  unfold attrs_decode_body. simp_cmp.
+  rewrite (land_lnot_nohas F F_MTIME HM). rewrite if_same. cbv zeta. rewrite HU. cbn [Z.eqb negb andb].
+  rewrite !HS. simp_has. simp_bools. cbn [p_opt].
+  unfold attrs_encode_body. projs. cbn [subsecond]. projs. simp_cmp. cbn [enc_opt app is_some orb].
+  rewrite <- !app_assoc.
+  rewrite (p_opt_rt_id get_u64 put_u64); [|intros x ->; apply get_put_u64; apply in_u64_spec; assumption].
+  cbv beta iota.
+  rewrite pair32_rt by assumption. cbv beta iota.
+  rewrite (p_opt_rt_id get_u32 put_u32);
+    [|intros x ->; apply get_put_u32;
+      match goal with Hp : opt_all _ (Some x) = true |- _ => cbn in Hp; unfold TWO32; lia end].
+  cbv beta iota.
+  rewrite pair32_rt by assumption. cbv beta iota.
+  cbn [opt_all negb]. rewrite ext_rt by assumption. cbv beta iota.
+  rewrite !opt_pair_fst, !opt_pair_snd by assumption.
+  change 65535 with (2 ^ 16 - 1). rewrite (perm_mask_rt 16) by (try lia; assumption).
+  match goal with Ht : (ty =? _) = true |- _ => apply Z.eqb_eq in Ht; rewrite <- Ht end.
+  reflexivity.
+Qed.
+
+Lemma owngrp_rt (owner group : option bytes) r :
+  both_or_none owner group = true ->
+  opt_all str_ok owner = true -> opt_all utf8_valid owner = true ->
+  opt_all str_ok group = true -> opt_all utf8_valid group = true ->
+  (if is_some (opt_pair owner group) then get_owngrp (enc_opt put_strpair (opt_pair owner group) ++ r)
+   else Ok (None, enc_opt put_strpair (opt_pair owner group) ++ r)) = Ok (opt_pair owner group, r).
+Proof.
+  intros B H1 H2 H3 H4. destruct owner as [o|], group as [g|]; try discriminate B; cbn [opt_pair is_some enc_opt app]; [|reflexivity].
+  apply get_put_owngrp; assumption.
+Qed.
+
+Ltac field_step :=
+  first
+  [ rewrite (p_opt_rt_id get_u64 put_u64); [|intros ? ->; apply get_put_u64; apply in_u64_spec; assumption]
+  | rewrite pair32_rt by assumption
+  | rewrite (p_opt_rt_id get_u32 put_u32);
+    [|intros x ->; apply get_put_u32;
+      first [apply in_u32_spec; assumption
+            | match goal with Hp : opt_all _ (Some x) = true |- _ => cbn in Hp; unfold TWO32; lia end]]
+  | rewrite time_rt by assumption
+  | rewrite (p_opt_rt_id get_string put_string); [|intros ? ->; apply get_put_string; assumption]
+  | rewrite (p_opt_rt_id get_byte (fun h => [h])); [|intros ? ->; reflexivity]
+  | rewrite owngrp_rt by assumption
+  | rewrite ext_rt by assumption
+  | match goal with Hm : opt_all utf8_valid ?m = true |- context [negb (opt_all utf8_valid ?m)] => rewrite Hm; cbn [negb] end
+  | progress cbn [opt_all negb p_opt] ];
+  cbv beta iota.
+
+Lemma attrs_rt6 a rest : attrs_carriable 6 a = true -> attrs_decode 6 (attrs_encode 6 a ++ rest) = Ok (a, rest).
+Proof.
+  intros C.
+  destruct a as [ty size alloc uid gid owner group perm atime atime_ns crtime crtime_ns mtime mtime_ns
+                 ctime ctime_ns acl bits valid hint mime nlink untrans ext].
+  unfold attrs_carriable in C. revert C. projs. unfold subsecond. projs. simp_cmp. cbv iota.
+  set (sub := is_some atime_ns || is_some crtime_ns || is_some mtime_ns || is_some ctime_ns).
+  intros C. and_hyps.
+  assert (Sa : is_some atime_ns = true -> sub = true) by (unfold sub; intros ->; reflexivity).
+  assert (Sc : is_some crtime_ns = true -> sub = true) by (unfold sub; intros ->; rewrite orb_true_r; reflexivity).
+  assert (Sm : is_some mtime_ns = true -> sub = true) by (unfold sub; intros ->; rewrite !orb_true_r; reflexivity).
+  assert (Sk : is_some ctime_ns = true -> sub = true) by (unfold sub; intros ->; rewrite !orb_true_r; reflexivity).
+  none_fields.
+  repeat match goal with
+         | H : opt_all (fun s => str_ok s && utf8_valid s) _ = true |- _ => apply opt_all_and in H; destruct H
+         end.
+  unfold attrs_decode, attrs_encode. rewrite <- app_assoc.
+  rewrite get_put_u32 by apply attr_flags_range. cbn [lift].
+  unfold attr_flags. projs. unfold subsecond. projs. fold sub. simp_cmp. cbn [is_some opt_pair negb andb orb].
+  match goal with |- context [flagsum ?l] => set (F := flagsum l) end.
+  assert (HS : forall m, has F m = existsb (fun pm => fst pm && has (snd pm) m) _) by (intros m; apply has_flagsum).
+  cbn [existsb fst snd andb orb] in HS.
+  assert (HU : Z.land F (Z.lnot (valid_flags 6)) = 0)
+    by (subst F; apply flagsum_within;
+        repeat (constructor; [cbn [fst snd]; first [discriminate | intros _; reflexivity]|]); constructor).
+  unfold attrs_decode_body. simp_cmp. cbn [andb]. cbv zeta. rewrite HU. cbn [Z.eqb negb andb].
+  rewrite !HS. simp_has. simp_bools. cbn [p_opt].
+  unfold attrs_encode_body. projs. unfold subsecond. projs. fold sub. simp_cmp. cbn [enc_opt app is_some orb].
+  rewrite enc_filetype_id by (projs; assumption). projs.
+  rewrite <- !app_assoc. cbn [app get_byte lift].
+  match goal with |- context [enc_owngrp ?a] => change (enc_owngrp a) with (enc_opt put_strpair (opt_pair owner group)) end.
+  repeat field_step.
+  rewrite ?opt_pair_fst, ?opt_pair_snd by assumption.
+  rewrite ?tsec_map. repeat (erewrite tns_map by eassumption).
+  change 4095 with (2 ^ 12 - 1). rewrite (perm_mask_rt 12) by (try lia; assumption).
+  destruct perm; reflexivity.
+Qed.
+
+Lemma attrs_rt5 a rest : attrs_carriable 5 a = true -> attrs_decode 5 (attrs_encode 5 a ++ rest) = Ok (a, rest).
+Proof.
+  intros C.
+  destruct a as [ty size alloc uid gid owner group perm atime atime_ns crtime crtime_ns mtime mtime_ns
+                 ctime ctime_ns acl bits valid hint mime nlink untrans ext].
+  unfold attrs_carriable in C. revert C. projs. unfold subsecond. projs. simp_cmp. cbv iota.
+  set (sub := is_some atime_ns || is_some crtime_ns || is_some mtime_ns || is_some ctime_ns).
+  intros C. and_hyps.
+  assert (Sa : is_some atime_ns = true -> sub = true) by (unfold sub; intros ->; reflexivity).
+  assert (Sc : is_some crtime_ns = true -> sub = true) by (unfold sub; intros ->; rewrite orb_true_r; reflexivity).
+  assert (Sm : is_some mtime_ns = true -> sub = true) by (unfold sub; intros ->; rewrite !orb_true_r; reflexivity).
+  assert (Sk : is_some ctime_ns = true -> sub = true) by (unfold sub; intros ->; rewrite !orb_true_r; reflexivity).
+  none_fields.
+  repeat match goal with
+         | H : opt_all (fun s => str_ok s && utf8_valid s) _ = true |- _ => apply opt_all_and in H; destruct H
+         end.
+  unfold attrs_decode, attrs_encode. rewrite <- app_assoc.
+  rewrite get_put_u32 by apply attr_flags_range. cbn [lift].
+  unfold attr_flags. projs. unfold subsecond. projs. fold sub. simp_cmp. cbn [is_some opt_pair negb andb orb].
+  match goal with |- context [flagsum ?l] => set (F := flagsum l) end.
+  assert (HS : forall m, has F m = existsb (fun pm => fst pm && has (snd pm) m) _) by (intros m; apply has_flagsum).
+  cbn [existsb fst snd andb orb] in HS.
+  assert (HU : Z.land F (Z.lnot (valid_flags 5)) = 0)
+    by (subst F; apply flagsum_within;
+        repeat (constructor; [cbn [fst snd]; first [discriminate | intros _; reflexivity]|]); constructor).
+  unfold attrs_decode_body. simp_cmp. cbn [andb]. cbv zeta. rewrite HU. cbn [Z.eqb negb andb].
+  rewrite !HS. simp_has. simp_bools. cbn [p_opt].
+  unfold attrs_encode_body. projs. unfold subsecond. projs. fold sub. simp_cmp. cbn [enc_opt app is_some orb].
+  rewrite enc_filetype_id by (projs; assumption). projs.
+  rewrite <- !app_assoc. cbn [app get_byte lift].
+  match goal with |- context [enc_owngrp ?a] => change (enc_owngrp a) with (enc_opt put_strpair (opt_pair owner group)) end.
+  repeat field_step.
+  rewrite ?opt_pair_fst, ?opt_pair_snd by assumption.
+  rewrite ?tsec_map. repeat (erewrite tns_map by eassumption).
+  change 4095 with (2 ^ 12 - 1). rewrite (perm_mask_rt 12) by (try lia; assumption).
+  destruct perm; reflexivity.
+Qed.
+
+Lemma attrs_rt4 a rest : attrs_carriable 4 a = true -> attrs_decode 4 (attrs_encode 4 a ++ rest) = Ok (a, rest).
+Proof.
+  intros C.
+  destruct a as [ty size alloc uid gid owner group perm atime atime_ns crtime crtime_ns mtime mtime_ns
+                 ctime ctime_ns acl bits valid hint mime nlink untrans ext].
+  unfold attrs_carriable in C. revert C. projs. unfold subsecond. projs. simp_cmp. cbv iota.
+  set (sub := is_some atime_ns || is_some crtime_ns || is_some mtime_ns || is_some ctime_ns).
+  intros C. and_hyps.
+  assert (Sa : is_some atime_ns = true -> sub = true) by (unfold sub; intros ->; reflexivity).
+  assert (Sc : is_some crtime_ns = true -> sub = true) by (unfold sub; intros ->; rewrite orb_true_r; reflexivity).
+  assert (Sm : is_some mtime_ns = true -> sub = true) by (unfold sub; intros ->; rewrite !orb_true_r; reflexivity).
+  assert (Sk : is_some ctime_ns = true -> sub = true) by (unfold sub; intros ->; rewrite !orb_true_r; reflexivity).
+  none_fields.
+  repeat match goal with
+         | H : opt_all (fun s => str_ok s && utf8_valid s) _ = true |- _ => apply opt_all_and in H; destruct H
+         end.
+  unfold attrs_decode, attrs_encode. rewrite <- app_assoc.
+  rewrite get_put_u32 by apply attr_flags_range. cbn [lift].
+  unfold attr_flags. projs. unfold subsecond. projs. fold sub. simp_cmp. cbn [is_some opt_pair negb andb orb].
+  match goal with |- context [flagsum ?l] => set (F := flagsum l) end.
+  assert (HS : forall m, has F m = existsb (fun pm => fst pm && has (snd pm) m) _) by (intros m; apply has_flagsum).
+  cbn [existsb fst snd andb orb] in HS.
+  assert (HU : Z.land F (Z.lnot (valid_flags 4)) = 0)
+    by (subst F; apply flagsum_within;
+        repeat (constructor; [cbn [fst snd]; first [discriminate | intros _; reflexivity]|]); constructor).
+  unfold attrs_decode_body. simp_cmp. cbn [andb]. cbv zeta. rewrite HU. cbn [Z.eqb negb andb].
+  rewrite !HS. simp_has. simp_bools. cbn [p_opt].
+  unfold attrs_encode_body. projs. unfold subsecond. projs. fold sub. simp_cmp. cbn [enc_opt app is_some orb].
+  rewrite enc_filetype_id by (projs; assumption). projs.
+  rewrite <- !app_assoc. cbn [app get_byte lift].
+  match goal with |- context [enc_owngrp ?a] => change (enc_owngrp a) with (enc_opt put_strpair (opt_pair owner group)) end.
+  repeat field_step.
+  rewrite ?opt_pair_fst, ?opt_pair_snd by assumption.
+  rewrite ?tsec_map. repeat (erewrite tns_map by eassumption).
+  change 4095 with (2 ^ 12 - 1). rewrite (perm_mask_rt 12) by (try lia; assumption).
+  destruct perm; reflexivity.
+Qed.
+
+Lemma attrs_rt v a rest :
+  3 <= v <= 6 -> attrs_carriable v a = true -> attrs_decode v (attrs_encode v a ++ rest) = Ok (a, rest).
+Proof.
+  intros Hv. assert (v = 3 \/ v = 4 \/ v = 5 \/ v = 6) as [->|[->|[->| ->]]] by lia.
+  - apply attrs_rt3.
+  - apply attrs_rt4.
+  - apply attrs_rt5.
+  - apply attrs_rt6.
+Qed.
+
+(* a carriable record is always encodable (no OverflowError / ValueError) *)
+Lemma pair_all_u32 (x y : option Z) : opt_all in_u32 x = true -> opt_all in_u32 y = true -> pair_all in_u32 (opt_pair x y) = true.
+Proof. destruct x, y; cbn; intros H1 H2; try reflexivity. rewrite H1, H2. reflexivity. Qed.
+Lemma pair_all_str (x y : option bytes) : opt_all str_ok x = true -> opt_all str_ok y = true -> pair_all str_ok (opt_pair x y) = true.
+Proof. destruct x, y; cbn; intros H1 H2; try reflexivity. rewrite H1, H2. reflexivity. Qed.
+Lemma time_enc_ok_of sub t ns : time_carriable sub t ns = true -> time_enc_ok sub t ns = true.
+Proof.
+  destruct t as [x|], ns as [n|]; cbn; intros H; try reflexivity; try discriminate.
+  - apply andb_true_iff in H. destruct H as [-> ->]. rewrite orb_true_r. reflexivity.
+  - apply andb_true_iff in H. destruct H as [-> ->]. reflexivity.
+Qed.
+
+Ltac leaf :=
+  first [ assumption | reflexivity
+        | apply pair_all_u32; assumption | apply pair_all_str; assumption
+        | apply time_enc_ok_of; assumption
+        | (apply orb_true_iff; right; leaf) | (apply orb_true_iff; left; leaf) ].
+
+Lemma attrs_carriable_enc_ok v a : 3 <= v <= 6 -> attrs_carriable v a = true -> attrs_enc_ok v a = true.
+Proof.
+  intros Hv C.
+  destruct a as [ty size alloc uid gid owner group perm atime atime_ns crtime crtime_ns mtime mtime_ns
+                 ctime ctime_ns acl bits valid hint mime nlink untrans ext].
+  assert (v = 3 \/ v = 4 \/ v = 5 \/ v = 6) as [->|[->|[->| ->]]] by lia;
+    unfold attrs_carriable in C; revert C; unfold attrs_enc_ok; projs; unfold subsecond; projs; simp_cmp; cbv iota;
+    intros C; and_hyps; none_fields;
+    repeat match goal with
+           | H : opt_all (fun s => str_ok s && utf8_valid s) _ = true |- _ => apply opt_all_and in H; destruct H
+           end;
+    cbn [opt_pair is_some negb orb andb opt_all pair_all time_enc_ok];
+    try (rewrite enc_filetype_id by (projs; assumption); projs);
+    repeat (apply andb_true_iff; split); try leaf.
+  all: try (unfold ext_ok, in_u8 in *; and_hyps; assumption).
+  all: try (destruct perm as [m|]; [|reflexivity]; cbn in *; unfold in_u32, TWO32; lia).
+  all: try (destruct uid, gid; cbn in *; try reflexivity; discriminate).
+Qed.
+
+(* ------------------------------------------------------------------------------------------ *)
+(* 4. names                                                                                     *)
+
+Lemma name_rt v n rest :
+  3 <= v <= 6 -> name_carriable v n = true -> name_decode v (name_encode v n ++ rest) = Ok (n, rest).
+Proof.
+  intros Hv C. destruct n as [f l a]. unfold name_carriable in C. cbn [n_filename n_longname n_attrs] in C.
+  apply andb_true_iff in C. destruct C as [C Ca]. apply andb_true_iff in C. destruct C as [Cf Cl].
+  unfold name_decode, name_encode. cbn [n_filename n_longname n_attrs]. rewrite <- !app_assoc.
+  rewrite get_put_string by exact Cf. cbn [lift]. destruct (v =? 3) eqn:E.
+  - destruct l as [l|]; [|discriminate]. rewrite get_put_string by exact Cl. cbn [lift].
+    rewrite attrs_rt by assumption. reflexivity.
+  - destruct l as [l|]; [discriminate|]. cbn [app]. rewrite attrs_rt by assumption. reflexivity.
+Qed.
+
+Lemma name_carriable_enc_ok v n : 3 <= v <= 6 -> name_carriable v n = true -> name_enc_ok v n = true.
+Proof.
+  intros Hv C. unfold name_carriable in C. unfold name_enc_ok.
+  apply andb_true_iff in C. destruct C as [C Ca]. apply andb_true_iff in C. destruct C as [Cf Cl].
+  rewrite Cf, (attrs_carriable_enc_ok v _ Hv Ca). cbn [andb]. rewrite andb_true_r.
+  destruct (v =? 3); [exact Cl|reflexivity].
+Qed.
+
+Lemma name_encode_nonempty v n : (1 <= length (name_encode v n))%nat.
+Proof. unfold name_encode, put_string, put_u32. rewrite !app_length. cbn [length]. lia. Qed.
+
+(* the name list of an FXP_NAME reply *)
+Lemma names_rt v l : forall fuel rest,
+  3 <= v <= 6 -> (length l <= fuel)%nat -> forallb (name_carriable v) l = true ->
+  names_decode fuel v (Z.of_nat (length l)) (flat_map (name_encode v) l ++ rest) = Ok (l, rest).
+Proof.
+  induction l as [|n l IH]; intros fuel rest Hv Hf Hc.
+  - destruct fuel; reflexivity.
+  - destruct fuel as [|fuel]; [cbn in Hf; lia|]. cbn [forallb] in Hc. apply andb_true_iff in Hc. destruct Hc as [Hn Hl].
+    cbn [names_decode length flat_map]. replace (Z.of_nat (S (length l)) <=? 0) with false by lia.
+    rewrite <- app_assoc. rewrite name_rt by assumption.
+    replace (Z.of_nat (S (length l)) - 1) with (Z.of_nat (length l)) by lia.
+    rewrite IH; [reflexivity|exact Hv|cbn in Hf; lia|exact Hl].
+Qed.
+
+(* ------------------------------------------------------------------------------------------ *)
+(* 5. status replies                                                                            *)
+
+Lemma status_rt v code reason lang :
+  0 <= status_code_for v code < TWO32 -> status_code_for v code <> FX_UNKNOWN_PRINCIPAL ->
+  str_ok reason = true -> utf8_valid reason = true -> str_ok lang = true -> ascii_valid lang = true ->
+  status_decode v (status_encode v code reason lang) = Ok (status_code_for v code, reason, lang).
+Proof.
+  intros Hc Hn H1 H2 H3 H4. unfold status_decode, status_encode.
+  rewrite get_put_u32 by exact Hc. cbn [lift].
+  assert (Hne : exists x r, put_string reason ++ put_string lang = x :: r).
+  { unfold put_string at 1, put_u32. cbn [app]. eauto. }
+  destruct Hne as (x & r & Hne). rewrite Hne. rewrite <- Hne.
+  rewrite get_put_string by exact H1. cbn [lift]. rewrite H2. cbn [negb].
+  rewrite <- (app_nil_r (put_string lang)). rewrite get_put_string by exact H3. cbn [lift]. rewrite H4. cbn [negb].
+  apply Z.eqb_neq in Hn. rewrite Hn. rewrite andb_false_r. reflexivity.
+Qed.
+
+(* ------------------------------------------------------------------------------------------ *)
+(* the 32-bit wrap: a request left unanswered while 2^32 - 1 later ones are issued and answered is
+   still in the table when the counter comes back to its id *)
+Fixpoint cycles (n : nat) (k : Z) : list cev :=
+  match n with
+  | O => []
+  | S n' => CSend :: CRecv FXP_STATUS k [] :: cycles n' (k + 1)
+  end.
+
+Lemma cycles_run n : forall k,
+  1 <= k -> k + Z.of_nat n <= TWO32 ->
+  fst (c_run (mkc (k mod TWO32) k [(0, 0)] true []) (cycles n k)) =
+  mkc ((k + Z.of_nat n) mod TWO32) (k + Z.of_nat n) [(0, 0)] true [].
+Proof.
+  induction n as [|n IH]; intros k Hk Hn.
+  - cbn [cycles c_run fst Z.of_nat]. rewrite Z.add_0_r. reflexivity.
+  - cbn [cycles]. rewrite Nat2Z.inj_succ in *.
+    rewrite (Z.mod_small k) by lia.
+    change (c_run ?s (CSend :: ?r)) with (let '(s1, o1) := c_step s CSend in let '(s2, o2) := c_run s1 r in (s2, o1 ++ o2)).
+    cbn [c_step c_next c_count c_reqs c_open c_cancelled dict_set].
+    replace (0 =? k) with false by lia.
+    change (c_run ?s (CRecv ?t ?i ?p :: ?r)) with
+      (let '(s1, o1) := c_step s (CRecv t i p) in let '(s2, o2) := c_run s1 r in (s2, o1 ++ o2)).
+    cbn [c_step c_next c_count c_reqs c_open c_cancelled dict_pop].
+    replace (0 =? k) with false by lia. rewrite Z.eqb_refl. cbn [memz existsb].
+    specialize (IH (k + 1)).
+    destruct (c_run (mkc ((k + 1) mod TWO32) (k + 1) [(0, 0)] true []) (cycles n (k + 1))) as [s2 o2] eqn:R.
+    cbn [fst] in IH |- *. rewrite IH by lia.
+    replace (k + Z.succ (Z.of_nat n)) with (k + 1 + Z.of_nat n) by lia. reflexivity.
+Qed.
+
+Lemma stale_gen (N : nat) :
+  Z.of_nat N = TWO32 - 1 ->
+  let s := fst (c_run c_init (CSend :: cycles N 1)) in
+  c_reqs s = [(0, 0)] /\ c_open s = true /\ c_next s = 0 /\ c_count s = TWO32.
+Proof.
+  intros HN.
+  change (c_run c_init (CSend :: ?r)) with (let '(s1, o1) := c_step c_init CSend in let '(s2, o2) := c_run s1 r in (s2, o1 ++ o2)).
+  cbn [c_step c_init c_next c_count c_reqs c_open c_cancelled dict_set].
+  change (0 + 1) with 1.
+  pose proof (cycles_run N 1) as H.
+  destruct (c_run (mkc (1 mod TWO32) 1 [(0, 0)] true []) (cycles N 1)) as [s2 o2].
+  cbn [fst] in *. rewrite H; [|lia|rewrite HN; lia].
+  rewrite HN. cbn [c_reqs c_open c_next c_count].
+  replace (1 + (TWO32 - 1)) with TWO32 by lia. rewrite Z.mod_same by (unfold TWO32; lia). auto.
+Qed.
+
+Lemma stale_request_meets_wrapped_counter :
+  exists evs, let s := fst (c_run c_init evs) in
+              c_reqs s = [(0, 0)] /\ c_open s = true /\ c_next s = 0 /\ c_count s = TWO32.
+Proof.
+  exists (CSend :: cycles (Z.to_nat (TWO32 - 1)) 1). apply stale_gen. apply Z2Nat.id. unfold TWO32. lia.
+Qed.
+
+(* ------------------------------------------------------------------------------------------ *)
+(* 8b. every truncation of a well-formed body is malformed                                      *)
+
+(* a reader is "extensible" when, having succeeded on b, it succeeds on b ++ t with the same value
+   and leaves t behind as well *)
+Definition oext {A} (g : bytes -> option (A * bytes)) : Prop :=
+  forall b x r t, g b = Some (x, r) -> g (b ++ t) = Some (x, r ++ t).
+Definition rext {A} (p : bytes -> res (A * bytes)) : Prop :=
+  forall b x r t, p b = Ok (x, r) -> p (b ++ t) = Ok (x, r ++ t).
+
+Lemma get_byte_ext : oext get_byte.
+Proof. intros [|c b] x r t H; inversion H; reflexivity. Qed.
+Lemma get_u32_ext : oext get_u32.
+Proof. intros [|a [|b1 [|c [|d b]]]] x r t H; inversion H; reflexivity. Qed.
+Lemma get_u64_ext : oext get_u64.
+Proof.
+  intros b x r t H. unfold get_u64 in *. destruct (get_u32 b) as [[hi r1]|] eqn:E1; [|discriminate].
+  rewrite (get_u32_ext _ _ _ t E1). destruct (get_u32 r1) as [[lo r2]|] eqn:E2; [|discriminate].
+  rewrite (get_u32_ext _ _ _ t E2). inversion H; reflexivity.
+Qed.
+Lemma get_bytes_ext n : oext (get_bytes n).
+Proof.
+  intros b x r t H. unfold get_bytes in *. destruct (n <=? Z.of_nat (length b)) eqn:E; [|discriminate].
+  rewrite app_length. replace (n <=? Z.of_nat (length b + length t)) with true by lia.
+  inversion H; subst. destruct (Z_lt_le_dec n 0) as [Hn|Hn].
+  - replace (Z.to_nat n) with 0%nat by lia. reflexivity.
+  - assert (Hl : (Z.to_nat n <= length b)%nat) by lia.
+    rewrite firstn_app, skipn_app. replace (Z.to_nat n - length b)%nat with 0%nat by lia.
+    cbn [firstn skipn]. rewrite app_nil_r. reflexivity.
+Qed.
+Lemma get_string_ext : oext get_string.
+Proof.
+  intros b x r t H. unfold get_string in *. destruct (get_u32 b) as [[n r1]|] eqn:E1; [|discriminate].
+  rewrite (get_u32_ext _ _ _ t E1). apply get_bytes_ext. exact H.
+Qed.
+Lemma get_pair_ext {A B} (f : bytes -> option (A * bytes)) (g : bytes -> option (B * bytes)) :
+  oext f -> oext g -> oext (get_pair f g).
+Proof.
+  intros Hf Hg b x r t H. unfold get_pair in *. destruct (f b) as [[a r1]|] eqn:E1; [|discriminate].
+  rewrite (Hf _ _ _ t E1). destruct (g r1) as [[c r2]|] eqn:E2; [|discriminate].
+  rewrite (Hg _ _ _ t E2). inversion H; reflexivity.
+Qed.
+Lemma get_time_ext sub : oext (get_time sub).
+Proof.
+  intros b x r t H. unfold get_time in *. destruct (get_u64 b) as [[s r1]|] eqn:E1; [|discriminate].
+  rewrite (get_u64_ext _ _ _ t E1). destruct sub; [|inversion H; reflexivity].
+  destruct (get_u32 r1) as [[ns r2]|] eqn:E2; [|discriminate]. rewrite (get_u32_ext _ _ _ t E2). inversion H; reflexivity.
+Qed.
+Lemma p_opt_ext {A} c (g : bytes -> option (A * bytes)) : oext g -> rext (p_opt c g).
+Proof.
+  intros Hg b x r t H. unfold p_opt in *. destruct c; [|inversion H; reflexivity].
+  destruct (g b) as [[y r1]|] eqn:E; [|discriminate]. rewrite (Hg _ _ _ t E). inversion H; reflexivity.
+Qed.
+Lemma lift_ext {A} (g : bytes -> option (A * bytes)) : oext g -> rext (fun b => lift (g b)).
+Proof.
+  intros Hg b x r t H. destruct (g b) as [[y r1]|] eqn:E; [|discriminate]. rewrite (Hg _ _ _ t E).
+  cbn [lift] in *. inversion H; reflexivity.
+Qed.
+Lemma get_owngrp_ext : rext get_owngrp.
+Proof.
+  intros b x r t H. unfold get_owngrp in *. destruct (get_string b) as [[o r1]|] eqn:E1; [|discriminate].
+  rewrite (get_string_ext _ _ _ t E1). cbn [lift] in *. destruct (negb (utf8_valid o)); [discriminate|].
+  destruct (get_string r1) as [[g r2]|] eqn:E2; [|discriminate]. rewrite (get_string_ext _ _ _ t E2). cbn [lift] in *.
+  destruct (negb (utf8_valid g)); [discriminate|]. inversion H; reflexivity.
+Qed.
+Lemma get_ext_ext fuel : forall count b l r t fuel',
+  (fuel <= fuel')%nat -> get_ext fuel count b = Some (l, r) -> get_ext fuel' count (b ++ t) = Some (l, r ++ t).
+Proof.
+  induction fuel as [|f IH]; intros count b l r t fuel' Hf H.
+  - cbn [get_ext] in H. destruct (count <=? 0) eqn:E; [|discriminate]. inversion H; subst.
+    destruct fuel'; cbn [get_ext]; rewrite E; reflexivity.
+  - destruct fuel' as [|f']; [lia|]. cbn [get_ext] in *. destruct (count <=? 0) eqn:E; [inversion H; reflexivity|].
+    destruct (get_pair get_string get_string b) as [[kd r1]|] eqn:E1; [|discriminate].
+    rewrite (get_pair_ext _ _ get_string_ext get_string_ext _ _ _ t E1).
+    destruct (get_ext f (count - 1) r1) as [[l1 r2]|] eqn:E2; [|discriminate].
+    assert (Hle : (f <= f')%nat) by lia. rewrite (IH (count - 1) r1 l1 r2 t f' Hle E2). inversion H; reflexivity.
+Qed.
+Lemma ext_block_ext (c : bool) :
+  rext (fun b => if c then let* (count, b1) := lift (get_u32 b) in lift (get_ext (S (length b1)) count b1)
+                 else Ok (@nil (bytes * bytes), b)).
+Proof.
+  intros b x r t H. destruct c; [|inversion H; reflexivity].
+  destruct (get_u32 b) as [[count b1]|] eqn:E1; [|discriminate]. rewrite (get_u32_ext _ _ _ t E1). cbn [lift] in *.
+  destruct (get_ext (S (length b1)) count b1) as [[l r1]|] eqn:E2; [|discriminate].
+  assert (Hle : (S (length b1) <= S (length (b1 ++ t)))%nat) by (rewrite app_length; lia).
+  rewrite (get_ext_ext (S (length b1)) count b1 l r1 t (S (length (b1 ++ t))) Hle E2). cbn [lift] in *.
+  inversion H; reflexivity.
+Qed.
+
+Lemma owngrp_if_ext (c : bool) : rext (fun b => if c then get_owngrp b else Ok (None, b)).
+Proof. intros b x r t H. destruct c; [apply get_owngrp_ext; exact H|inversion H; reflexivity]. Qed.
+Lemma type_if_ext (c : bool) : rext (fun b => if c then lift (get_byte b) else Ok (FT_UNKNOWN, b)).
+Proof. intros b x r t H. destruct c; [apply (lift_ext _ get_byte_ext); exact H|inversion H; reflexivity]. Qed.
+
+Ltac walk t :=
+  repeat match goal with
+         | H : (if ?c then Err _ else _) = Ok _ |- _ => destruct c; [discriminate H|]
+         | H : match ?P with Ok _ => _ | Err _ => _ end = Ok _ |- _ =>
+             let E := fresh "E" in
+             destruct P as [[? ?]|] eqn:E; [|discriminate H];
+             first [ apply (p_opt_ext _ _ get_u64_ext _ _ _ t) in E
+                   | apply (p_opt_ext _ _ get_u32_ext _ _ _ t) in E
+                   | apply (p_opt_ext _ _ get_byte_ext _ _ _ t) in E
+                   | apply (p_opt_ext _ _ get_string_ext _ _ _ t) in E
+                   | apply (p_opt_ext _ _ (get_pair_ext _ _ get_u32_ext get_u32_ext) _ _ _ t) in E
+                   | apply (p_opt_ext _ _ (get_time_ext _) _ _ _ t) in E
+                   | apply (owngrp_if_ext _ _ _ _ t) in E
+                   | apply (type_if_ext _ _ _ _ t) in E
+                   | apply (ext_block_ext _ _ _ _ t) in E ];
+             rewrite E; cbv beta iota
+         end.
+
+Lemma attrs_decode_body_ext v f : rext (attrs_decode_body v f).
+Proof.
+  intros b a r t H. unfold attrs_decode_body in *. cbv zeta in *.
+  walk t. inversion H; reflexivity.
+Qed.
+
+Lemma attrs_decode_ext v : rext (attrs_decode v).
+Proof.
+  intros b a r t H. unfold attrs_decode in *. destruct (get_u32 b) as [[f b1]|] eqn:E; [|discriminate].
+  rewrite (get_u32_ext _ _ _ t E). cbn [lift] in *. apply attrs_decode_body_ext. exact H.
+Qed.
+
+Definition no_rest (fs : list fld) : Prop := ~ In FRest fs.
+
+Lemma parse_fld_ext v f : f <> FRest -> rext (parse_fld v f).
+Proof.
+  intros Hf b x r t H. destruct f; cbn [parse_fld] in *; try contradiction.
+  - destruct (get_string b) as [[s r1]|] eqn:E; [|discriminate]. rewrite (get_string_ext _ _ _ t E). cbn [lift] in *. inversion H; reflexivity.
+  - destruct (get_u32 b) as [[s r1]|] eqn:E; [|discriminate]. rewrite (get_u32_ext _ _ _ t E). cbn [lift] in *. inversion H; reflexivity.
+  - destruct (get_u64 b) as [[s r1]|] eqn:E; [|discriminate]. rewrite (get_u64_ext _ _ _ t E). cbn [lift] in *. inversion H; reflexivity.
+  - destruct (get_byte b) as [[s r1]|] eqn:E; [|discriminate]. rewrite (get_byte_ext _ _ _ t E). cbn [lift] in *. inversion H; reflexivity.
+  - destruct (attrs_decode v b) as [[s r1]|] eqn:E; [|discriminate]. rewrite (attrs_decode_ext _ _ _ _ t E). inversion H; reflexivity.
+Qed.
+
+Lemma parse_flds_ext v fs : no_rest fs -> rext (parse_flds v fs).
+Proof.
+  induction fs as [|f fs IH]; intros Hn b xs r t H; cbn [parse_flds] in *.
+  - inversion H; reflexivity.
+  - assert (Hf : f <> FRest) by (intros ->; apply Hn; left; reflexivity).
+    assert (Hn' : no_rest fs) by (intros Hin; apply Hn; right; exact Hin).
+    destruct (parse_fld v f b) as [[x b1]|] eqn:E1; [|discriminate]. rewrite (parse_fld_ext v f Hf _ _ _ t E1).
+    destruct (parse_flds v fs b1) as [[ys b2]|] eqn:E2; [|discriminate]. rewrite (IH Hn' _ _ _ t E2).
+    inversion H; reflexivity.
+Qed.
+
+(* a body that decodes completely (nothing left over) stops decoding as soon as bytes are cut off its end *)
+Lemma parse_flds_truncated v fs b xs b' t :
+  no_rest fs -> parse_flds v fs b = Ok (xs, []) -> b = b' ++ t -> t <> [] ->
+  exists e, parse_flds v fs b' = Err e.
+Proof.
+  intros Hn H -> Ht. destruct (parse_flds v fs b') as [[ys r]|e] eqn:E; [|eauto].
+  rewrite (parse_flds_ext v fs Hn _ _ _ t E) in H. inversion H as [[H1 H2]].
+  apply app_eq_nil in H2. destruct H2 as [_ H2]. contradiction.
+Qed.
+
+(* and the reply is then an error status (never FX_OK): the decoders only fail with PacketDecodeError,
+   BAD_MESSAGE, OWNER_INVALID or GROUP_INVALID *)
+Definition parse_err (e : err) : Prop :=
+  e = EDecode \/ e = ESftp FX_BAD_MESSAGE \/ e = ESftp FX_OWNER_INVALID \/ e = ESftp FX_GROUP_INVALID.
+
+Lemma p_opt_err {A} c (g : bytes -> option (A * bytes)) b e : p_opt c g b = Err e -> e = EDecode.
+Proof. unfold p_opt. destruct c; [|discriminate]. destruct (g b) as [[? ?]|]; [discriminate|]. intros H; inversion H; reflexivity. Qed.
+Lemma lift_err {A} (o : option A) e : lift o = Err e -> e = EDecode.
+Proof. destruct o; [discriminate|]. intros H; inversion H; reflexivity. Qed.
+Lemma get_owngrp_err b e : get_owngrp b = Err e -> parse_err e.
+Proof.
+  unfold get_owngrp, parse_err. destruct (get_string b) as [[o r1]|]; cbn [lift]; [|intros H; inversion H; auto].
+  destruct (negb (utf8_valid o)); [intros H; inversion H; auto|].
+  destruct (get_string r1) as [[g r2]|]; cbn [lift]; [|intros H; inversion H; auto].
+  destruct (negb (utf8_valid g)); [intros H; inversion H; auto|discriminate].
+Qed.
+
+Lemma attrs_decode_err v b e : attrs_decode v b = Err e -> parse_err e.
+Proof.
+  unfold attrs_decode. destruct (get_u32 b) as [[f b1]|]; cbn [lift]; [|intros H; inversion H; left; reflexivity].
+  unfold attrs_decode_body. cbv zeta. unfold parse_err.
+  repeat match goal with
+         | |- (if ?c then Err ?x else _) = Err _ -> _ => destruct c; [intros H; inversion H; auto|]
+         | |- match ?P with Ok _ => _ | Err _ => _ end = Err _ -> _ =>
+             let E := fresh "E" in
+             destruct P as [[? ?]|e'] eqn:E;
+             [|intros H; inversion H; subst;
+               first [ apply p_opt_err in E; auto
+                     | apply lift_err in E; auto
+                     | (destruct (4 <=? v); [apply lift_err in E; auto|discriminate E])
+                     | match type of E with (if ?c then get_owngrp _ else _) = _ =>
+                         destruct c; [apply get_owngrp_err in E; exact E|discriminate E] end
+                     | match type of E with (if ?c then _ else _) = _ =>
+                         destruct c; [|discriminate E];
+                         match type of E with match lift (get_u32 ?x) with _ => _ end = _ =>
+                           destruct (get_u32 x) as [[? ?]|]; cbn [lift] in E; [apply lift_err in E; auto|inversion E; auto] end end ]]
+         end.
+  discriminate.
+Qed.
+
+Lemma parse_flds_err v fs : forall b e, parse_flds v fs b = Err e -> parse_err e.
+Proof.
+  induction fs as [|f fs IH]; intros b e H; cbn [parse_flds] in H; [discriminate|].
+  destruct (parse_fld v f b) as [[x b1]|e1] eqn:E1.
+  - destruct (parse_flds v fs b1) as [[ys b2]|e2] eqn:E2; [discriminate|]. inversion H; subst. eapply IH; exact E2.
+  - inversion H; subst. clear H. destruct f; cbn [parse_fld] in E1.
+    + destruct (lift (get_string b)) as [[? ?]|] eqn:E; [discriminate|]. inversion E1; subst. left. eapply lift_err; exact E.
+    + destruct (lift (get_u32 b)) as [[? ?]|] eqn:E; [discriminate|]. inversion E1; subst. left. eapply lift_err; exact E.
+    + destruct (lift (get_u64 b)) as [[? ?]|] eqn:E; [discriminate|]. inversion E1; subst. left. eapply lift_err; exact E.
+    + destruct (lift (get_byte b)) as [[? ?]|] eqn:E; [discriminate|]. inversion E1; subst. left. eapply lift_err; exact E.
+    + destruct (attrs_decode v b) as [[? ?]|] eqn:E; [discriminate|]. inversion E1; subst. eapply attrs_decode_err; exact E.
+    + destruct (lift (get_strings (S (length b)) b)) as [?|] eqn:E; [discriminate|]. inversion E1; subst. left. eapply lift_err; exact E.
+Qed.
+
+Lemma ladder_parse_err_nonzero v e : parse_err e -> exists c, ladder v e = RStatus c /\ c <> FX_OK.
+Proof.
+  unfold parse_err, FX_OK. intros [->|[->|[->| ->]]]; cbn [ladder].
+  - exists FX_BAD_MESSAGE. split; [reflexivity|discriminate].
+  - eexists. split; [reflexivity|]. unfold status_code_for, FX_BAD_MESSAGE, FX_NOT_A_DIRECTORY, FX_NO_SUCH_FILE, FX_FAILURE, FX_V3_END, FX_V4_END, FX_V5_END, FX_V6_END. split_ifs; lia.
+  - eexists. split; [reflexivity|]. unfold status_code_for, FX_OWNER_INVALID, FX_NOT_A_DIRECTORY, FX_NO_SUCH_FILE, FX_FAILURE, FX_V3_END, FX_V4_END, FX_V5_END, FX_V6_END. split_ifs; lia.
+  - eexists. split; [reflexivity|]. unfold status_code_for, FX_GROUP_INVALID, FX_NOT_A_DIRECTORY, FX_NO_SUCH_FILE, FX_FAILURE, FX_V3_END, FX_V4_END, FX_V5_END, FX_V6_END. split_ifs; lia.
+Qed.
+
+Section ServerTruncation.
+Variable fmt_ok : attrs -> bool.
+
+(* the server's answer to a request whose body is a well-formed body with bytes cut off its end *)
+Lemma s_process_truncated v s ty id body' br k b b' t fs ec xs :
+  req_spec v k = Some (fs, ec) -> no_rest fs -> parse_flds v fs b = Ok (xs, []) ->
+  b = b' ++ t -> t <> [] -> key_and_body ty body' = Ok (k, b') ->
+  exists c, s_process fmt_ok v s ty id body' br = (s, [mkreply FXP_STATUS id (RStatus c)]) /\ c <> FX_OK.
+Proof.
+  intros HR Hn HP Hb Ht HK. destruct (parse_flds_truncated v fs b xs b' t Hn HP Hb Ht) as [e He].
+  destruct (ladder_parse_err_nonzero v e (parse_flds_err v fs b' e He)) as (c & Hc & Hnz).
+  exists c. split; [|exact Hnz]. rewrite <- Hc. eapply s_process_malformed; eassumption.
+Qed.
+End ServerTruncation.
+
+(* the only request whose body ends in an open-ended list is the SFTPv6 REALPATH (compose paths) *)
+Lemma req_spec_rest v k fs ec :
+  req_spec v k = Some (fs, ec) -> no_rest fs \/ (k = HInt FXP_REALPATH /\ 6 <= v).
+Proof.
+  unfold req_spec, no_rest. destruct k as [t|n].
+  - repeat match goal with
+           | |- context [if ?c then _ else _] => let E := fresh "E" in destruct c eqn:E
+           end; intros H; inversion H; subst;
+      try (left; cbn [In]; intros Hin; repeat (destruct Hin as [Hin|Hin]; [discriminate Hin|]); exact Hin).
+    all: right; split; [f_equal; lia|lia].
+  - repeat match goal with
+           | |- context [if ?c then _ else _] => destruct c
+           end; intros H; inversion H; subst;
+      left; cbn [In]; intros Hin; repeat (destruct Hin as [Hin|Hin]; [discriminate Hin|]); exact Hin.
 Qed.
